@@ -19,8 +19,8 @@ from urllib.parse import urlsplit, unquote
 sys.path.insert(0, os.path.join(os.path.dirname(os.path.abspath(__file__)), "..", "..", "harness"))
 import cli_alias_lib as L  # noqa: E402
 
-GA = ["GA_Reassemble", "GA_TableCap", "GA_CapForms", "GA_DefaultIsTahoe", "GA_Errors", "GA_ColonInLaterComponent", "GA_Drive"]
-AF = ["AF_Parse", "AF_Readback", "AF_Frame", "AF_Refused", "AF_Create", "AF_List"]
+GA = ["GA_Reassemble", "GA_TableCap", "GA_CapForms", "GA_ColonDotSlash", "GA_DefaultIsTahoe", "GA_Errors", "GA_ColonInLaterComponent", "GA_Drive"]
+AF = ["AF_Parse", "AF_Readback", "AF_Frame", "AF_Refused", "AF_Accepted", "AF_Create", "AF_List"]
 CC = ["CC_DefaultIsTahoe", "CC_UnknownAlias", "CC_Addressed", "CC_FailureShows", "CC_MoveOrder", "CC_NoEmptyComponent"]
 
 
@@ -53,7 +53,11 @@ def arg_shape(toks):
     t = strip(toks)
     if uri_prefix(t):
         i, j = find(t, [":", ".", "/"]), find(t, ["/"])
-        return "cap_slash_before_colon_dot_slash" if (i >= 0 and j < i) else "cap"
+        if i >= 0 and j < i:
+            return "cap_slash_before_colon_dot_slash"
+        if i >= 0 and i + 3 == len(t):
+            return "cap_colon_dot_slash_alone"
+        return "leading_slash" if (j >= 0 and t[j + 1:j + 2] == ["/"]) else "cap"
     if t[:1] == ["/"]:
         return "leading_slash"
     if ":" in t:
